@@ -666,6 +666,8 @@ impl Property for C18 {
             .events
             .iter()
             .filter(|e| !(e.chan == crate::world::Chan::Open && e.src == 0))
+            // (listing a directory argument reads names, not input: tolerated like the factory call)
+            .filter(|e| !matches!(e.chan, crate::world::Chan::ListOpen | crate::world::Chan::ListNext))
             .collect();
         if r.obs.events.len() > touched.len() {
             ctx.stats.probe("stdin factory called before the rejection (tolerated: nothing was read)");
